@@ -95,7 +95,7 @@ def finish(check: Check, t0: float, seed: int, selftest: Optional[dict] = None) 
         print(f'ADVISORY: property={check.pid} rule={o.rule} {o.where} {o.subject}: {o.what} -- {o.detail}')
     for o in knownhits:
         print(f'KNOWN-FINDING: property={check.pid} rule={o.rule} {o.where} {o.subject}: {o.what} -- {o.detail}')
-    ev_dir = os.path.join(VERIF, 'evidence')
+    ev_dir = os.environ.get('VERIF_EVIDENCE_DIR') or os.path.join(VERIF, 'evidence')
     os.makedirs(ev_dir, exist_ok=True)
     replay = os.path.join(ev_dir, f'{check.pid}.violations.json')
     if viol:
